@@ -65,6 +65,10 @@ func PanicSites(r *core.Run, sc *Scope, bce *BCE, table string) {
 					o.Auto("sort.Interface method: sort calls Less/Swap only with 0 <= i,j < Len()")
 					return true
 				}
+				if why, ok := sortSliceLess(info, f, x); ok {
+					o.Auto("%s", why)
+					return true
+				}
 				if why, ok := indexSafe(info, f, x); ok {
 					o.Auto("%s", why)
 				} else if !r.Table(table, o) {
@@ -386,4 +390,50 @@ func assertInTypeSwitchCase(info *types.Info, f *ScopeFunc, ta *ast.TypeAssertEx
 		}
 	}
 	return "", false
+}
+
+// sortSliceLess: X[i] inside the less-function literal passed to
+// sort.Slice(X, func(i, j int) bool {...}) (or SliceStable / slices.SortFunc is
+// not index based) where i is one of the literal's parameters: the sort
+// package calls less only with 0 <= i, j < len(X).
+func sortSliceLess(info *types.Info, f *ScopeFunc, x *ast.IndexExpr) (string, bool) {
+	lit, ok := f.Node.(*ast.FuncLit)
+	if !ok {
+		return "", false
+	}
+	id, ok := core.Unparen(x.Index).(*ast.Ident)
+	if !ok {
+		return "", false
+	}
+	isParam := false
+	for _, fl := range lit.Type.Params.List {
+		for _, n := range fl.Names {
+			if info.Defs[n] == info.Uses[id] {
+				isParam = true
+			}
+		}
+	}
+	if !isParam {
+		return "", false
+	}
+	encl := core.EnclosingFunc(f.Pkg, lit.Pos())
+	if encl == nil {
+		return "", false
+	}
+	found := ""
+	ast.Inspect(encl.Body, func(n ast.Node) bool {
+		c, ok := n.(*ast.CallExpr)
+		if !ok || len(c.Args) != 2 || ast.Node(c.Args[1]) != ast.Node(lit) {
+			return true
+		}
+		name := core.CalleeName(info, c)
+		if (name == "sort.Slice" || name == "sort.SliceStable") && core.ExprStr(c.Args[0]) == core.ExprStr(x.X) {
+			found = name
+		}
+		return true
+	})
+	if found == "" {
+		return "", false
+	}
+	return fmt.Sprintf("less function of %s(%s, …): called only with valid indices of that slice", found, core.ExprStr(x.X)), true
 }
